@@ -6,9 +6,10 @@ import json, sys, os
 OUT = "/verif/mutsweep"
 tp = f"{OUT}/triage.json"
 tri = json.load(open(tp)) if os.path.exists(tp) else {}
-muts = [json.loads(l) for l in open(f"{OUT}/mutants.jsonl")]
-st = json.load(open(f"{OUT}/filter.json"))
-ck = json.load(open(f"{OUT}/check.json")) if os.path.exists(f"{OUT}/check.json") else {}
+SET = os.environ.get("MS_SET", "")
+muts = [json.loads(l) for l in open(f"{OUT}/mutants{SET}.jsonl")]
+st = json.load(open(f"{OUT}/filter{SET}.json"))
+ck = json.load(open(f"{OUT}/check{SET}.json")) if os.path.exists(f"{OUT}/check{SET}.json") else {}
 silent = [m for m in muts if st.get(m["id"]) == "survives" and m["id"] in ck and not any(x["exit"] == 1 for x in ck[m["id"]].values())]
 if sys.argv[1] == "list":
     for m in silent:
